@@ -7,7 +7,8 @@ MODULE = "StorageModel.Properties.C06"
 THEOREMS = ["inv_init", "inv_step", "inv_tx", "inv_reachable", "absent_no_trace", "delete_no_trace",
             "delete_no_trace_owner", "cascade_no_trace", "boss_cascade_no_trace", "tx_removed_no_trace", "delete_terminates", "restrict_refuses", "no_fk_names_absent", "delete_forgets", "recreate_fresh", "recreate_accepted_iff", "recreate_absent_accepted_iff",
             "recreate_as_if_never_existed", "child_create_over_parent_reindexes", "child_create_over_parent_no_trace",
-            "child_create_empty_name_rejected", "rc_and_child_links_no_trace", "cascade_witness", "cycle_witness", "extended_child_witness", "self_link_witness", "naming_variant_witness", "chief_witness"]
+            "child_create_empty_name_rejected", "rc_and_child_links_no_trace", "cascade_witness", "cycle_witness", "extended_child_witness", "self_link_witness", "naming_variant_witness", "chief_witness",
+            "alias_index_key_is_stored_bytes", "code_index_key_is_stored_bytes", "typed_variant_witness"]
 
 A_IDS = {"61", "62", "63", "64", "65"}
 
@@ -90,7 +91,9 @@ RULE = ("random histories (seeded) of 6-25 (quick) / 6-41 (thorough) transaction
         "A (3-6 ids, one of them byte-equal to an id of B), its plain child store A1, its EXTENDED child store A2 and B "
         "(3 ids); every third history under the naming variant of the schema (case prefix h1: symbol name, stored key and "
         "caller-side checker name of name / alias differ, roles and colour have their own checker names; patches name fields "
-        "by the caller-side names): create A / create through A1 with 0-2 child-owned links / create through A2 with a colour (a fifth resp. "
+        "by the caller-side names), every sixth under the TYPED variant (case prefix h2: the unique indexes are over non-string symbols - "
+        "alias int64, code int32, colour float64, label int32; a value v is stored as the number with the little-endian digits v, "
+        "the index reads go through the 8- / 4-byte encodings; an empty v is the number 0 and is indexed): create A / create through A1 with 0-2 child-owned links / create through A2 with a colour (a fifth resp. "
         "a quarter of the child-store creates over an existing parent) / update and patch through A (23 checker subsets of "
         "name, alias, roles, owner, dep, groups, boss, chief) and through A2 (12 subsets incl. colour; a tenth without ext2 data) / "
         "delete through A, A1 or A2 / boss self references: half of the written entities name a boss (an existing entity, "
@@ -111,7 +114,7 @@ RULE = ("random histories (seeded) of 6-25 (quick) / 6-41 (thorough) transaction
 ASSUMPTIONS = [
     "bbolt: buckets are finite maps, a transaction applies all of its writes or none (modelled)",
     "ids are not byte-confusable with bucket names, stored values or other ids (hypothesis NoClash of the no-trace theorems; "
-    "evaluated by the driver for every validated delete; true of the generated universe: ids a-e p / p-r, values x y zq m nq). "
+    "evaluated by the driver for every validated delete; true of the generated universe: ids a-e p / p-r, values x y zq m nq, in the typed variant their zero-padded 8- / 4-byte forms under the type bytes 3 / 2 / 4). "
     "That no stored reference (owner, dep, boss) names the absent id is NOT part of the hypothesis: it is proved",
     "the recursion of the cascading delete is bounded by a fuel of (number of A entities + 1) in the model; that it never "
     "runs out in a consistent state is a theorem (delete_terminates)",
